@@ -335,7 +335,7 @@ static void DecodeAdr(tStrComp* pArg, Word Mask) {
     Word         AdrWord;
     Boolean      OK, Unknown;
     tSymbolFlags Flags;
-    LongInt      DispAcc;
+    LargeInt     DispAcc;
     Byte         HReg;
     tSymbolSize  DispSize;
     ShortInt     RegPart;
